@@ -3,10 +3,10 @@ CONSTANTS
   NV = 2
   Ord <- O01
   Slots = 2
-  MaxNodes = 5
+  MaxNodes = 4
   MaxCache = 9
   Cnfs <- NoCnfs
-  Ops <- AllOps
+  Ops <- IteCond
   GetIgnoresCompl = FALSE
   GetIgnoresKey = FALSE
 INVARIANTS ResultOK ShapeOK Canonical CacheSound CacheShape CacheStandard
